@@ -384,9 +384,10 @@ def gen_value(rng, fc, codec, length=None):
     if proc in ('PAN', 'PAN-PREFIX'):
         if length is None:
             # a prefix of a SHORT number is the number itself (nothing is added to it)
-            n = rng.choice([1, 5, 8, 9, 10, 13, 16, 19]) if proc == 'PAN-PREFIX' else max(10, min(n, 19))
+            n = rng.choice([1, 5, 8, 9, 10, 13, 16, 19, 20, 25, 40]) if proc == 'PAN-PREFIX' else max(10, min(n, 19))
             n = min(n, maxvar)
-        t = text(rng, codec, n, 'digits')
+        # (a prefix is the first nine CHARACTERS, whatever they are: grouped numbers with blanks or hyphens included)
+        t = text(rng, codec, n, 'digits' if proc == 'PAN' or rng.random() < 0.6 else 'any')
         from_dec = (t[0:6] + '*' * (len(t) - 10) + t[-4:]) if proc == 'PAN' else t[:9]
         return t, from_dec
     if proc == 'PDS':
